@@ -980,6 +980,7 @@ class Engine:
 			st.env[f'__it{lid}'] = it
 		for i, cl in enumerate(inv.clauses):
 			self.oblige(st, site, f'inv-init#{i}', self.pure(cl, st))
+		st0_for_guard = st.fork()
 		# --- arbitrary iteration
 		self.havoc(st, body_nodes, inv)
 		if kind == 'for':
@@ -993,6 +994,8 @@ class Engine:
 		m0 = self.pure(inv.decreases, st) if inv.decreases is not None else None
 
 		entered = [0]
+		if kind == 'for' and not self.feasible(st0_for_guard, int_term(start) < int_term(stop)):
+			entered[0] = 1     # the sequence is provably empty here: not a vacuous invariant
 
 		def after_body(s, out):
 			entered[0] += 1
@@ -1428,6 +1431,9 @@ class Engine:
 					yield s3, b
 					continue
 				r = self.cmp_values(s3, type(ops[0]), a, b, node)
+				if isinstance(r, Ref):
+					yield s3, r          # element-wise comparison of an array: a boolean array
+					continue
 				if len(ops) == 1:
 					yield s3, wrap_bool(simp(r))
 				else:
@@ -1511,7 +1517,10 @@ class Engine:
 			yield st, FuncRef(f'{obj.qualname}.{attr}')
 			return
 		if isinstance(obj, SSlice):
-			yield st, getattr(obj, attr)
+			if attr in ('start', 'stop', 'step'):
+				yield st, getattr(obj, attr)
+			else:
+				yield st, BoundMethod(obj, attr)
 			return
 		if isinstance(obj, SObj):
 			if attr in obj.T.fields:
@@ -1934,7 +1943,18 @@ class Engine:
 		if h is not None and (c is None):
 			yield from h(self, st, args if self_val is None else [self_val] + list(args), kwargs, node)
 			return
-		fi = self.repo.funcinfo(qualname)
+		try:
+			fi = self.repo.funcinfo(qualname)
+		except Unsupported:
+			if c is not None and c.trusted:
+				# an abstract method (no body in this class): only its assumed contract exists
+				names = list(c.types)
+				actual = ([self_val] if self_val is not None else []) + list(args)
+				bound = dict(zip(names, actual))
+				bound.update(kwargs)
+				yield from self.apply_contract(st, c, None, bound, site)
+				return
+			raise
 		if self_val is None and fi.cls is not None and any(ast.unparse(d) == 'classmethod' for d in fi.node.decorator_list):
 			self_val = ClassRef(qualname.rsplit('.', 1)[0])
 		if c is None or c.inline:
